@@ -17,6 +17,9 @@ PROVEN / FINDING matrix (path x resource) on the code after the two fix: commits
                           as the row of whichever of the two ends the session (residue_free_gap, residue_free_split)
   any path, DISCOVER only KNOWN KF-dhcp4-offer-pinned (C02's finding): the pool binding stays for ever; nothing else exists
   any path, nothing held  identity
+  a termination inside the unlock window of the client's own REQUEST (handleRequest drops the lease lock right after the
+  lease insert): KNOWN KF-dhcp4-establish-race: NAT, QoS, cache mac + circuit and the circuit-id index entry stay for ever,
+                          the Accounting-Stop precedes the Start (driven through the verif hook c2c1600, op `estgap`)
   shutdown                KNOWN KF-dhcp4-shutdown-residue: nothing is torn down, no Accounting-Stop
 
   F = finding D46, fixed in /repo by ff76ae1 (DECLINE) and 35938e6 (expiry); (q) = quarantined, not free, after DECLINE;
@@ -26,8 +29,8 @@ import verif as V
 
 COMPS = [
     V.Component("dhcpterm", kind="gotest",
-                monitors=["addr-not-returned", "nat-residue", "qos-residue", "cache-residue", "missing-stop",
-                          "double-stop", "stop-unstarted", "second-end-effect", "view-skew"]),
+                monitors=["addr-not-returned", "nat-residue", "qos-residue", "cache-residue", "index-residue",
+                          "missing-stop", "double-stop", "stop-unstarted", "second-end-effect", "view-skew"]),
 ]
 SPEC = ["Bng.Spec.C16Dhcp"]
 
@@ -44,7 +47,12 @@ ASSUME = [
     "(free list; quarantined after DECLINE), NAT block, QoS policy, cache keys by MAC / VLAN pair / circuit-id (both circuit "
     "maps), exactly one Accounting-Stop, second termination = identity: PROVED for all histories; DECLINE and expiry x "
     "{NAT, QoS, Accounting-Stop} were finding D46 (fixed); every path at the DISCOVER-only prefix x address: KNOWN "
-    "KF-dhcp4-offer-pinned; shutdown x every resource: KNOWN KF-dhcp4-shutdown-residue",
+    "KF-dhcp4-offer-pinned; shutdown x every resource: KNOWN KF-dhcp4-shutdown-residue; RELEASE/DECLINE inside the unlock "
+    "window of the client's own REQUEST x {NAT, QoS, cache mac, cache circuit, circuit-id index, accounting order}: KNOWN "
+    "KF-dhcp4-establish-race (the theorems speak about histories in which a REQUEST is one step: residue_free_partial)",
+    "dhcpterm: clients with hardware addresses of 1, 5, 7 and 16 bytes are part of the generator (finding D60-expiry-odd-hlen, "
+    "fixed by 2d9d12b; KF-radius-short-chaddr-panic, fixed by 2526db0); at most one address shorter than 6 bytes per run, "
+    "because ebpf.MACToUint64 maps every such address to the cache key 0",
     "dhcpterm: circuit-ids are private to a MAC (a shared circuit-id aliases two leases through leasesByCircuitID: finding D9 "
     "of C02), so the circuit-id index is not modelled; one pool of 8 addresses; RADIUS authentication off; the QoS policy "
     "exists and the NAT pool never runs out; the accounting server answers every request (an unanswered Stop is C08's subject)",
@@ -53,8 +61,11 @@ ASSUME = [
     "dhcpterm: two terminations at once are realised on the real code by stalling the first one's goroutine at the NAT "
     "manager's pool lock (after it took the lease and removed the QoS entry) while the second runs; the model places the "
     "second one right after the first dropped the lease lock; pairs in which the second would need the held lock (it ends "
-    "another live session) are refused by harness and driver alike; an ESTABLISHMENT racing a termination's tail is not explored",
+    "another live session) are refused by harness and driver alike; a termination inside an establishment's unlock window "
+    "is the op `estgap`; an ESTABLISHMENT inside the TAIL of a termination is not explored",
     "dhcpterm: the VLAN-pair cache is observed (it must stay empty): no code path of pkg/dhcp sets Lease.STag/CTag",
     "dhcpterm: the monitor (Bng.DhcpTerm.monitor) is validated by the runs only: silent on the unchanged tree outside the two "
-    "recorded clauses, fires nat-residue / qos-residue / missing-stop on the tree before ff76ae1",
+    "recorded clauses, fires nat-residue / qos-residue / missing-stop on the tree before ff76ae1 and, for clients with a "
+    "chaddr that is not 6 bytes long, with 2d9d12b reverted; residue is judged globally: an entry that no lease accounts for "
+    "and that was not already an orphan before the operation",
 ]
